@@ -24,7 +24,7 @@ func exporterGuardSpec() *guardSpec {
 func init() {
 	register(&propDef{
 		ID:          "C14",
-		Explanation: "Structural necessary conditions for the exporter's background work and lifecycle, decided on SSA: (1) R-SHARE: every field of ExportingProcess that is touched after construction both by a background goroutine (connection check, template refresh; reachability through the repo call graph) and by the API, with at least one write, is accessed only through sync/atomic, under a common lock, or has a synchronising type; (2) R-LOCK: templatesMap (and every alias of the loaded map) is accessed only under templateMutex, and every exit of every exporter function is lock-balanced (an error exit that keeps the mutex deadlocks later sends); (3) R-WG: both goroutines are added to the wait group before the go statement and defer Done; (4) close protocol: close(stopCh) and conn.Close() are dominated by the false edge of isClosed.Swap(true) (idempotent, safe from any goroutine); CloseConnToCollector = internal close then wg.Wait(); nothing reachable from a background goroutine reaches wg.Wait() (self-deadlock); every blocking select of the goroutines has a receive case on stopCh; on a failed check / refresh the goroutine calls the internal close; (5) periodicity: the tick channel of each goroutine loop is a time.Ticker's, or a time.Timer that is Reset on every path back to the select. (6) R-PERIOD.value: the refresher's ticker period is TempRefTimeout * time.Second and the checker's is CheckConnInterval or a positive default (followed through captured variables); (7) background code calls only Read/SetReadDeadline/Close on the shared connection and only SendSet calls the functions that write. Not decided: the check/refresh periods themselves, bytes after close, message-granular interleaving beyond 'one Write per message' (C08). Later additions: CloseConnToCollector waits on every path; from the 'not closed yet' edge every path reaches close(stopCh) and conn.Close(); each background goroutine is started under exactly CollectorProtocol == udp / tcp; template elements stay empty so that the refresher can rebuild templates.",
+		Explanation: "Structural necessary conditions for the exporter's background work and lifecycle, decided on SSA: (1) R-SHARE: every field of ExportingProcess that is touched after construction both by a background goroutine (connection check, template refresh; reachability through the repo call graph) and by the API, with at least one write, is accessed only through sync/atomic, under a common lock, or has a synchronising type; (2) R-LOCK: templatesMap (and every alias of the loaded map) is accessed only under templateMutex, and every exit of every exporter function is lock-balanced (an error exit that keeps the mutex deadlocks later sends); (3) R-WG: both goroutines are added to the wait group before the go statement and defer Done; (4) close protocol: close(stopCh) and conn.Close() are dominated by the false edge of isClosed.Swap(true) (idempotent, safe from any goroutine); CloseConnToCollector = internal close then wg.Wait(); nothing reachable from a background goroutine reaches wg.Wait() (self-deadlock); every blocking select of the goroutines has a receive case on stopCh; on a failed check / refresh the goroutine calls the internal close; (5) periodicity: the tick channel of each goroutine loop is a time.Ticker's, or a time.Timer that is Reset on every path back to the select. (6) R-PERIOD.value: the refresher's ticker period is TempRefTimeout * time.Second and the checker's is CheckConnInterval or a positive default (followed through captured variables); (7) background code calls only Read/SetReadDeadline/Close on the shared connection and only SendSet calls the functions that write. Not decided: the check/refresh periods themselves, bytes after close, message-granular interleaving beyond 'one Write per message' (C08). Later additions: CloseConnToCollector waits on every path; from the 'not closed yet' edge every path reaches close(stopCh) and conn.Close(); each background goroutine is started under exactly CollectorProtocol == udp / tcp; template elements stay empty so that the refresher can rebuild templates. Round-five additions: methods of lock-bearing structs have pointer receivers.",
 		Assume:      []string{"net.Conn.Write is atomic per call", "time.Ticker / atomic.Bool semantics", "the application calls SendSet from one goroutine (property's own proviso)"},
 		Run:         runC14,
 	})
